@@ -4,8 +4,9 @@ namespace Cocls.Pool
 
 set_option maxHeartbeats 4000000
 
-theorem inv_submit {c : Cfg} {s : State} {t : Nat} {kd : Kind} {bd : List Prim} {kl : Bool} {rest : List Act}
-    (h : Inv c s) (hpc : s.pc t = Pc.idle) : Inv c (stepSubmit s t kd bd kl rest).1 := by
+theorem inv_newJob {c : Cfg} {s : State} {t : Nat} {kd : Kind} {bd : List Prim} {ac : List Act} {kl : Bool} {rest : List Act}
+    (h : Inv c s) (hpc : s.pc t = Pc.idle ∨ ∃ r, s.pc t = Pc.peekDone Peek.resub r) :
+    Inv c (newJob s t kd bd ac kl rest) := by
   have hfr : s.loc s.nextJob = Loc.fresh := (h.l_fresh _).2 (Nat.le_refl _)
   have hz := h.z_fresh s.nextJob (Nat.le_refl _)
   have hc0 := h.c_once s.nextJob
@@ -15,8 +16,12 @@ theorem inv_submit {c : Cfg} {s : State} {t : Nat} {kd : Kind} {bd : List Prim} 
     have := h.l_dqpc t; grind [Pc.inStop]
   have htm : s.tmp t = [] := by
     have := h.s_tmp_pc t; grind
-  unfold stepSubmit
-  inv_step h
+  unfold newJob
+  rcases hpc with hpc | ⟨r, hpc⟩ <;> inv_step h
+
+theorem inv_submit {c : Cfg} {s : State} {t : Nat} {kd : Kind} {bd : List Prim} {kl : Bool} {rest : List Act}
+    (h : Inv c s) (hpc : s.pc t = Pc.idle) : Inv c (stepSubmit s t kd bd kl rest).1 :=
+  inv_newJob h (Or.inl hpc)
 
 theorem inv_enqCS {c : Cfg} {s : State} {t k j : Nat} (h : Inv c s) (hpc : s.pc t = Pc.enqCS j)
     (hmx : s.mx = none) : Inv c (stepEnqCS s t k j).1 := by
